@@ -571,47 +571,46 @@ impl Array {
         // else if all dimensions match
         // else (broadcast)
         } else {
-            let mut flat_indices = vec![0; arrays.len()];
             let mut slices: Vec<&[Float]> = arrays
                 .iter()
                 .zip(&group_lengths)
                 .map(|(v, &g)| &v.values[0..g])
                 .collect();
 
-            for _ in 0..leading_length {
-                let output_offset = flatten_indices(&indices, &output_dimensions);
+            for n in 0..leading_length {
+                // the output shares the leading dimensions of the input
+                let output_offset = n * output_group_length;
                 let output_slice =
                     &mut output_values[output_offset..output_offset + output_group_length];
 
                 op(output_slice, &slices);
 
-                for (i, (x, d)) in indices
+                for (x, d) in indices
                     .iter_mut()
                     .zip(input_dimensions)
-                    .enumerate()
                     .rev()
                     .skip(op_dimension_count)
                 {
                     if *x == *d - 1 {
                         *x = 0;
                     } else {
-                        for (((index, slice), array), group_length) in flat_indices
-                            .iter_mut()
-                            .zip(slices.iter_mut())
-                            .zip(&arrays)
-                            .zip(&group_lengths)
-                        {
-                            if i < array.dimensions.len().saturating_sub(op_dimension_count)
-                                && array.dimensions[i] != 1
-                            {
-                                *index += group_length;
-                                *slice = &array.values[*index..*index + group_length];
-                            }
-                        }
-
                         *x += 1;
                         break;
                     }
+                }
+
+                // right-align the leading dimensions of each array, and broadcast along unit dimensions
+                for ((slice, array), group_length) in
+                    slices.iter_mut().zip(&arrays).zip(&group_lengths)
+                {
+                    let array_leading_count =
+                        array.dimensions.len().saturating_sub(op_dimension_count);
+                    let skipped_count = leading_count - array_leading_count;
+                    let index = array.dimensions[..array_leading_count]
+                        .iter()
+                        .zip(&indices[skipped_count..leading_count])
+                        .fold(0, |acc, (d, i)| acc * d + if *d == 1 { 0 } else { *i });
+                    *slice = &array.values[index * group_length..(index + 1) * group_length];
                 }
             }
         }
